@@ -627,6 +627,7 @@ func main() {
 	writeIfChanged(filepath.Join(outdir, "GoAst.v"), genGoAst(pkgs, astWhitelist))
 	writeIfChanged(filepath.Join(outdir, "GoAstRecv.v"), genGoAst(pkgs, astRecv))
 	writeIfChanged(filepath.Join(outdir, "GoAstStreams.v"), genGoAst(pkgs, astStreams))
+	writeIfChanged(filepath.Join(outdir, "GoAstEnc.v"), genGoAst(pkgs, astEnc))
 	writeIfChanged(filepath.Join(outdir, "GoAstSend.v"), genGoAst(pkgs, astSend))
 	writeIfChanged(filepath.Join(outdir, "GoAstSign.v"), genGoAst(pkgs, astSign))
 	writeIfChanged(filepath.Join(outdir, "GoAstDearmor.v"), genGoAst(pkgs, astDearmor))
